@@ -402,6 +402,14 @@ def show_atom(a: Atom) -> str:
         return "(" + ", ".join(show(x) for x in a[1]) + ")"
     if k == "attr":
         return f"{show(a[1])}.{a[2]}"
+    if k == "item":
+        return f"{show(a[1])}[{a[2]}]"
+    if k == "join":
+        return f"{show(a[1])}.join({show(a[2])})"
+    if k == "slice":
+        return f"{show(a[1])}[{a[2]}]"
+    if k == "dict":
+        return "{" + ", ".join(f"{show(x)}: {show(y)}" for x, y in zip(a[1], a[2])) + "}"
     if k == "load":
         return f"{a[1] if isinstance(a[1], str) else show(a[1])}[{show(a[2])}]"
     if k == "opaque":
